@@ -439,9 +439,33 @@ func (pc *PartitionContext) removeApplication(appID string) []*objects.Allocatio
 					zap.String("allocationKey", currentAllocationKey),
 					zap.String("nodeID", alloc.GetNodeID()))
 			}
+			pc.reverseInflightReplacement(app, alloc)
 		}
 	}
 	return allocations
+}
+
+// reverseInflightReplacement cleans up after a placeholder that is removed, for any reason but the confirmation of its
+// replacement, while that replacement is in flight. The real allocation is not tracked by the application yet: it is
+// taken off the node it was already placed on, and its ask is marked as not allocated so that it gets scheduled again
+// if it still exists.
+func (pc *PartitionContext) reverseInflightReplacement(app *objects.Application, alloc *objects.Allocation) {
+	release := alloc.GetRelease()
+	if !alloc.IsPlaceholder() || release == nil {
+		return
+	}
+	if release.GetNodeID() != alloc.GetNodeID() {
+		if node := pc.GetNode(release.GetNodeID()); node != nil {
+			node.RemoveAllocation(release.GetAllocationKey())
+		}
+	}
+	release.ClearRelease()
+	alloc.ClearRelease()
+	if _, err := app.DeallocateAsk(release.GetAllocationKey()); err != nil {
+		log.Log(log.SchedPartition).Debug("inflight placeholder replacement reversed, ask already removed",
+			zap.String("appID", app.ApplicationID),
+			zap.String("allocationKey", release.GetAllocationKey()))
+	}
 }
 
 // Locked updates of the partition tracking info
@@ -1579,6 +1603,7 @@ func (pc *PartitionContext) removeAllocation(release *si.AllocationRelease) ([]*
 		} else if node.RemoveAllocation(alloc.GetAllocationKey()) != nil {
 			// all non replacement are real removes: must update the queue usage
 			total.AddTo(alloc.GetAllocatedResource())
+			pc.reverseInflightReplacement(app, alloc)
 			log.Log(log.SchedPartition).Info("removing allocation from node",
 				zap.String("nodeID", alloc.GetNodeID()),
 				zap.String("allocationKey", alloc.GetAllocationKey()))
